@@ -90,21 +90,38 @@ async fn recv_all(mut r: Receiver, c: J, log: Log, ln: u32) -> Receiver {
     let all = msgs(&c, ln);
     let credit = c["credit"].as_i64().unwrap_or(10);
     let auto = c["auto"].as_bool().unwrap_or(false);
-    for _ in 0..all.len() {
+    let mut got_n = 0usize;
+    // one recv result: logs it, accepts the delivery; false = the link failed
+    macro_rules! take { ($res:expr) => { match $res {
+        Ok(d) => {
+            let msg: &Message<Body<Value>> = d.message();
+            let m = match msg.properties.as_ref().and_then(|p| p.message_id.as_ref()) { Some(fe2o3_amqp_types::messaging::MessageId::Ulong(u)) => *u as i64, _ => -1 };
+            let got = serde_amqp::to_vec(&Serializable(msg)).unwrap_or_default();
+            let want = all.iter().find(|x| x.0 as i64 == m).map(|x| encode_message(&build_message(x.0, x.1, &x.2))).unwrap_or_default();
+            // a message of another link has no expected encoding here: it shows as not intact and as a routing failure in the trace
+            emit(&log, json!({"ev": "Recv", "ln": ln, "m": m, "intact": got == want, "len": got.len()}));
+            if !auto { let _ = r.accept(&d).await; }
+            got_n += 1; true
+        }
+        Err(e) => { emit(&log, json!({"ev": "RecvErr", "ln": ln, "err": format!("{e:?}").chars().take(120).collect::<String>()})); false }
+    } } }
+    if credit == -2 {
+        // Manual, credit raised over a delivery that has arrived but has not been taken yet: grant 1, let the delivery arrive, make it 2 in
+        // total, take the two, then look whether a third one comes although no credit is left (a sender that honours the grant sends none;
+        // one that does not makes this recv fail with a transfer-limit error)
+        while got_n < all.len() {
+            let _ = r.set_credit(1).await;
+            tokio::time::sleep(Duration::from_millis(20)).await;
+            let _ = r.set_credit(2).await;
+            for _ in 0..2 { if got_n < all.len() && !take!(r.recv::<Body<Value>>().await) { return r; } }
+            if got_n < all.len() { if let Ok(res) = tokio::time::timeout(Duration::from_millis(30), r.recv::<Body<Value>>()).await { if !take!(res) { return r; } } }
+        }
+        return r;
+    }
+    while got_n < all.len() {
         // Manual: one credit per recv (0), or |credit| credits granted again before every recv, i.e. while earlier deliveries are in flight or queued (< 0)
         if credit <= 0 { let _ = r.set_credit(if credit < 0 { (-credit) as u32 } else { 1 }).await; }
-        match r.recv::<Body<Value>>().await {
-            Ok(d) => {
-                let msg: &Message<Body<Value>> = d.message();
-                let m = match msg.properties.as_ref().and_then(|p| p.message_id.as_ref()) { Some(fe2o3_amqp_types::messaging::MessageId::Ulong(u)) => *u as i64, _ => -1 };
-                let got = serde_amqp::to_vec(&Serializable(msg)).unwrap_or_default();
-                let want = all.iter().find(|x| x.0 as i64 == m).map(|x| encode_message(&build_message(x.0, x.1, &x.2))).unwrap_or_default();
-                // a message of another link has no expected encoding here: it shows as not intact and as a routing failure in the trace
-                emit(&log, json!({"ev": "Recv", "ln": ln, "m": m, "intact": got == want, "len": got.len()}));
-                if !auto { let _ = r.accept(&d).await; }
-            }
-            Err(e) => { emit(&log, json!({"ev": "RecvErr", "ln": ln, "err": format!("{e:?}").chars().take(120).collect::<String>()})); break; }
-        }
+        if !take!(r.recv::<Body<Value>>().await) { break; }
     }
     r
 }
